@@ -90,7 +90,12 @@ def rule_ident(ctx: Ctx) -> RuleResult:
         via_repr = isinstance(inner, ast.Call) and dotted(inner.func) == "repr" and len(inner.args) == 1 \
             and isinstance(inner.args[0], ast.Name) and inner.args[0].id == "self"
         via_uri = _attr_of(arg, "self") == "uri"
-        ok = via_repr or via_uri
+        # any text built from the uri and constants alone (format / f-string / concatenation)
+        hflow = flow_of(h.node)
+        atoms = hflow.depends(arg)
+        built = {a.text for a in atoms if a.kind in ("attr", "param", "free")} - {"self"} == {"self.uri"} and all(a.kind == "param" or (
+            a.kind in ("attr", "const") or (a.kind == "call" and (a.text.endswith(".format") or a.text in ("str", "repr")))) for a in atoms)
+        ok = via_repr or via_uri or built
     if ok:
         res.ok("StringSid.__hash__", "hash of repr(self) / self.uri: a function of the uri")
     else:
